@@ -16,7 +16,7 @@ def load_outputs(*output_names: str, run_folder: str | Path) -> Any:
     """Load the outputs of a run."""
     run_folder = Path(run_folder)
     run_info = RunInfo.load(run_folder)
-    store = run_info.init_store()
+    store = run_info.init_store(in_process=True)  # reading shares nothing with other processes
     outputs = [_load_from_store(output_name, store).value for output_name in output_names]
     outputs = [_maybe_load_array(o) for o in outputs]
     return outputs[0] if len(output_names) == 1 else outputs
